@@ -2,6 +2,8 @@
 from __future__ import annotations
 
 import ast
+
+from engine import boolalg
 from typing import Dict, List, Optional, Set, Tuple
 
 from engine.cfg import CFG
@@ -98,7 +100,42 @@ def run(chk):
                 n_rng += 1
                 cfg = cfg or CFG(f.node)
                 g = cfg.guards(st) if st is not None and id(st) in cfg.g else []
-                ok = any(pol and unparse(t) in ("self.seed is None", "seed is None") for t, pol in g) or any((not pol) and unparse(t) in ("self.seed is not None", "seed is not None") for t, pol in g)
+                # the condition under which the call is evaluated: statement guards plus the enclosing conditional expressions /
+                # short-circuit operators; it must imply `seed is None` (a truthiness test lets seed=0 through)
+                conds = list(g)
+                cur, par = c, f.module.parent(c)
+                while par is not None and not isinstance(par, ast.stmt):
+                    if isinstance(par, ast.IfExp):
+                        if cur is par.body:
+                            conds.append((par.test, True))
+                        elif cur is par.orelse:
+                            conds.append((par.test, False))
+                    elif isinstance(par, ast.BoolOp) and cur in par.values:
+                        i_ = par.values.index(cur)
+                        for prev in par.values[:i_]:
+                            conds.append((prev, isinstance(par.op, ast.And)))
+                    cur, par = par, f.module.parent(par)
+
+                def _seed_atom(e):
+                    z, neg = boolalg.strip_truthiness(e)
+                    t_ = unparse(z)
+                    if t_ in ("self.seed", "seed", "self._seed"):
+                        return ("truthy", neg)
+                    if isinstance(z, ast.Compare) and len(z.ops) == 1 and unparse(z.left) in ("self.seed", "seed") and unparse(z.comparators[0]) == "None":
+                        o_ = type(z.ops[0])
+                        if o_ in (ast.Is, ast.Eq):
+                            return ("none", neg)
+                        if o_ in (ast.IsNot, ast.NotEq):
+                            return ("none", not neg)
+                    return None
+                ok = False
+                try:
+                    rows = boolalg.conj_table(conds, _seed_atom, ["none", "truthy"], ignore_unrecognised=True)
+                    # feasible seed states: None (none, not truthy), 0 (not none, not truthy), other ints (not none, truthy)
+                    ok = not rows[(False, False)] and not rows[(False, True)] and any(_seed_atom(t) is not None or True for t, _p in conds) and bool(conds) \
+                        and any(boolalg.mentions_only_atoms(t, _seed_atom) for t, _p in conds)
+                except boolalg.Unrecognised:
+                    ok = False
                 r1a.require(ok, f"{f.key}|rng:{fn}", f.where(c), f"{f.qualname} draws from the global RNG (`{unparse(c)[:60]}`) outside a `seed is None` guard: same data and seed no longer give the same model",
                             sample={"function": f.qualname, "call": unparse(c)[:60], "guard": [unparse(t) for t, p in g]})
                 continue
